@@ -1,8 +1,8 @@
 SPECIFICATION SpecApi
 CONSTANTS
   Threads = {"t1"}
-  Funcs = {"f1", "f2"}
-  FuncSeq <- MCFuncSeq
+  Funcs = {"f1"}
+  FuncSeq <- MCFuncSeq1
   Fakes = {"k1"}
   Sites = {1, 2}
   SlotLen = 4
